@@ -1,6 +1,8 @@
 package props
 
 import (
+	"strings"
+
 	"elaverif/ssau"
 
 	"golang.org/x/tools/go/ssa"
@@ -33,6 +35,28 @@ func runC23(c *Ctx) {
 	}
 	delete(exempt, "dpos/state.Producer.info")
 	c.sCoverage("S-coverage", ckptPkgs, exempt, 15, true)
+	c.R.Rule("K-snapshot", "the object the checkpoint manager hands to the asynchronous file writer (fileChannels.Save) is the value returned by the point's Snapshot() (a copy taken at that height), never the live checkpoint, which keeps changing while the file is written")
+	nSave := 0
+	for f := range c.P.AllFuncs() {
+		if !nodeFunc(f) || f.Pkg == nil || !strings.HasSuffix(f.Pkg.Pkg.Path(), "core/checkpoint") {
+			continue
+		}
+		for _, call := range ssau.CallsIn(f, func(cm *ssa.CallCommon) bool {
+			o := ssau.CalleeObj(cm)
+			return o != nil && o.Name() == "Save" && ssau.RecvName(o) == "fileChannels"
+		}) {
+			nSave++
+			a := call.Common().Args
+			arg := ssau.Unwrap(a[1])
+			if ci, ok := arg.(*ssa.ChangeInterface); ok {
+				arg = ssau.Unwrap(ci.X)
+			}
+			c.R.Check("K-snapshot", "Save argument|"+fname(f), methodCallNamed(arg, "Snapshot"), c.posOf(call), "fileChannels.Save must receive the result of Snapshot(), not the live checkpoint")
+		}
+	}
+	c.R.FloorCheck("K-snapshot Save call sites", nSave, 1)
+	c.R.Rule("S-order", "for every checkpoint struct the encoder and the decoder first touch any two equally typed fields in the same relative order in the source (calls of same-package helpers expanded in place): equally typed fields are not read in swapped wire positions")
+	c.sOrder("S-order", ckptPkgs, map[string]string{})
 	c.sFill("S-fill", ckptPkgs, 8)
 	c.sAppend("S-fill", ckptPkgs)
 
